@@ -719,9 +719,13 @@ func (t *AHtree) DataAt(n uint64) ([]byte, error) {
 	}
 
 	p := make([]byte, pSize)
-	_, err = t.pLog.ReadAt(p[:], int64(pOff+szSize))
-	if err != nil {
-		return nil, err
+
+	// an empty payload has nothing to be read (appendables refuse empty reads)
+	if pSize > 0 {
+		_, err = t.pLog.ReadAt(p[:], int64(pOff+szSize))
+		if err != nil {
+			return nil, err
+		}
 	}
 
 	_, _, err = t.pCache.Put(n, p)
